@@ -23,7 +23,7 @@ LINK_DELTA = {0: (1, 0), 1: (1, 1), 2: (0, 1), 3: (-1, 0), 4: (-1, -1), 5: (0, -
 
 
 def pattern_byte(seed, chip, a):
-    return (a * 167 + (a >> 8) * 91 + chip[0] * 59 + chip[1] * 101 + seed * 13) & 255
+    return ((a & 255) * 167 + ((a >> 8) & 255) * 91 + chip[0] * 59 + chip[1] * 101 + seed * 13) & 255
 
 
 def data_byte(seed, i):
